@@ -145,9 +145,10 @@ class FlowCtx:
         self._solver_base = None
 
     def cfg(self, f: FuncInfo) -> CFG:
-        if f.qual not in self._cfg:
-            self._cfg[f.qual] = CFG(f.node)
-        return self._cfg[f.qual]
+        key = f"{f.qual}@{id(f.node)}"        # a property getter and its setter share one qualified name
+        if key not in self._cfg:
+            self._cfg[key] = CFG(f.node)
+        return self._cfg[key]
 
     def assume(self, text: str):
         if text not in self.assumptions:
